@@ -1030,7 +1030,12 @@ func (c *fnCtx) run() {
 				}
 			case *ast.CallExpr:
 				if c.builtinName(s) == "copy" && len(s.Args) == 2 {
-					absorb(s.Args[0], s.Args[1])
+					// copying bytes copies no references; copying elements that are references does
+					if t := c.typeOf(s.Args[0]); t != nil {
+						if sl, ok := t.Underlying().(*types.Slice); !ok || isRef(sl.Elem()) {
+							absorb(s.Args[0], s.Args[1])
+						}
+					}
 				}
 				// an in-package callee: what its summary says it stores where
 				if fn := c.staticCallee(s); fn != nil && fn.Pkg() == c.a.tp && c.a.decls[fn] != nil {
